@@ -244,6 +244,48 @@ def close_cases(gw):
     return out
 
 
+def fd_part(ctx):
+    """spec/FdTable.tla (init_popen_io and what remote code can do to the descriptor table): TLC checks that nothing written to a standard
+    descriptor reaches the protocol pipes and no file lands on a standard or protocol descriptor, kills the design in which sys.stdout /
+    sys.stdin own descriptors 1 / 0; every operation sequence of the model (TLC-enumerated) runs on a fresh real popen worker and TLC
+    compares what each operation observed and the final descriptor table with the model's"""
+    from concurrent.futures import ThreadPoolExecutor
+
+    from real import fdtable_real
+
+    r = tlc.run("MCFdTable", "FD.cfg", scratch=ctx.scratch, timeout=300, parse_trace=False)
+    if not r.ok:
+        ctx.machinery(f"TLC MCFdTable/FD: {r.violated} {r.error[:300]}")
+    m = tlc.run("MCFdTable", "FD_owned.cfg", scratch=ctx.scratch, timeout=300, parse_trace=False)
+    if not m.violated or m.violated == "error":
+        ctx.machinery("TLC: the design in which sys.stdout / sys.stdin own descriptors 1 / 0 is not rejected (FdTable vacuous)")
+    e = tlc.run("FdTableCases", "Batch.cfg", scratch=ctx.scratch, env={"WHAT": "enum", "DEPTH": "3" if ctx.quick else "5"}, workers=1, timeout=600)
+    vals = tlc.printed_values(e.out, "words")
+    if not vals or not vals[0]:
+        ctx.machinery("FdTableCases enumerated nothing:\n" + e.out[-1200:])
+    words = sorted(vals[0], key=lambda w: (len(w), repr(w)))
+    prefixes = {w[:i] for w in words for i in range(len(w))}
+    maximal = [list(w) for w in words if w and w not in prefixes]
+    probe = os.path.join(ctx.scratch, "fdtable-probe")
+    with ThreadPoolExecutor(8) as ex:
+        res = list(ex.map(lambda w: fdtable_real.replay(w, probe), maximal))
+    bad = [x for x in res if x["err"] or not x["usable"]]
+    cases = [{"ops": x["ops"], "obs": x["obs"], "table": x["table"]} for x in res if not x["err"]]
+    verdicts = batch.judge("FdTableCases", cases, ctx.scratch, extra_env={"WHAT": "judge", "DEPTH": "0"})
+    hist = {}
+    for x in bad:
+        hist["worker-broke"] = hist.get("worker-broke", 0) + 1
+        ctx.violation(f"C06.worker-unusable-after-remote-code-touched-its-standard-descriptors: {json.dumps(x)[:300]}", x)
+    for c, vd in zip(cases, verdicts):
+        hist[vd] = hist.get(vd, 0) + 1
+        if vd.startswith("MODEL."):
+            ctx.machinery(f"FdTable replay: {vd} on {c['ops']}")
+        if vd != "ok":
+            ctx.violation(f"{vd}: {json.dumps(c)[:400]}", c)
+    ctx.note(f"FdTable: {len(maximal)} operation sequences replayed on fresh popen workers")
+    return {"model_states": r.distinct, "mutant_killed_by": m.violated, "sequences_enumerated": len(words), "sequences_replayed": len(maximal), "verdict_histogram": hist}
+
+
 def run(ctx):
     import execnet
 
@@ -289,6 +331,7 @@ def run(ctx):
             group.terminate(timeout=3)
     except ImportError:
         ctx.note("gevent not installed: stdio cases not repeated on a gevent worker")
+    fdres = fd_part(ctx)
     slim = [{k: v for k, v in c.items() if k in ("k", "shape", "res", "ran", "kwargs_equal", "name_ok", "channel_bound", "want_file", "want_line",
                                                  "once", "closed_after", "ok", "alive", "refused", "closed_at_end", "open_before_end")} for c in cases]
     verdicts = batch.judge("RemoteExecCases", slim, ctx.scratch)
@@ -305,7 +348,7 @@ def run(ctx):
                 "remote_exec on a real popen gateway; tracebacks of functions, modules and strings checked for original file and line; explicit close "
                 "inside refused, channel open until the code ends; stdout/stderr/fd-1/fd-2/subprocess output of 0..300000 (thorough 5 MB) bytes followed "
                 "by further traffic; verdict by TLC (spec/RemoteExecCases.tla); non-trivial = function shapes and trace/stdio/close cases",
-        "samples": [cases[0], cases[-1]], "shapes": len(shapes), "verdict_histogram": hist,
+        "samples": [cases[0], cases[-1]], "shapes": len(shapes), "verdict_histogram": hist, "fd_table": fdres,
     })
     ctx.assumptions += ["soundness of the purity analysis over all Python syntax is not decided; the table covers the shapes the statement enumerates",
                         "'nothing sent' for a local rejection is observed through the initiator's channel id allocation"]
